@@ -2,8 +2,11 @@
 EXTENDS Rpm, TLC
 CONSTANT MaxSteps
 Init == RInit
-Next == steps < MaxSteps /\ ((\E k \in Keys : Sign(k)) \/ Clear \/ Reparse \/ TamperHeader \/ TamperPayload)
+Next == steps < MaxSteps /\ ((\E k \in Keys : Sign(k)) \/ Clear \/ SignFail \/ Reparse \/ TamperHeader \/ TamperPayload)
 Spec == Init /\ [][Next]_rvars
 \* a payload tamper is never healed; a header tamper is healed exactly by re-signing / clearing
 PayloadStays == [][payDirty => payDirty']_rvars
+\* only an alteration of the written header makes the recorded header digest untrue, and every completed
+\* sign / clear makes it true again; a failed signing operation changes nothing
+DigestKept == [][(HdrDigestTrue /\ ~HdrDigestTrue') => steps' = steps + 1 /\ signer' = signer /\ payDirty' = payDirty]_rvars
 =============================================================================
